@@ -75,7 +75,7 @@ LEVEL_TEXT = ('Machine-checked theorems over the request path REGENERATED from t
               'their commit whatever the statement order (also for sequences of commits); the @view_defaults permission of a view class is its '
               'explicit permission; secured_view is the outermost sorted deriver, '
               'csrf_view directly under it; the judge clauses J1/J2 accept every model trace and every trace of the regenerated request path, '
-              'clause J4 does so at registration level (source of an HTTPForbidden read from the derived-view table) for every registry '
+              'clauses J4 and J5 do so at registration level (source of an HTTPForbidden / owner of a policy call read from the derived-view table; a table entry runs the body its statement declares) for every registry '
               'state; the view-execution core writes no Raised event; secure=False is never used by the router; '
               'the regenerated MultiView.__call__ is the model\'s loop; the registration key (slot, phash, predicates, order) does not '
               'depend on how request_method= is spelled (sorted closure under GET-implies-HEAD, also for the regenerated constructor), '
@@ -88,7 +88,7 @@ LEVEL_NOTE = ('Trusted: Coq kernel; the translator\'s primitive table and assump
               'clauses J3-J7 (J7 = C03\'s most-specific-view specification, also for a registry that served requests before a later '
               'commit and with a second application alive in the process; structural facts: per-registry lookup cache, no mutable '
               'class-level attribute / default argument in the modelled files) '
-              'commit) are validated by the run, not proved at judge level (J4 is proved at registration level, not yet for the program-text clause on the projected trace).')
+              'commit) are validated by the run, not proved at judge level (J4 and J5 are proved at registration level, not yet for the program-text clauses on the projected trace).')
 
 _facts_cache = {}
 
